@@ -28,7 +28,7 @@ static int pm(int p, const char *s)
 }
 
 /* command lists: ex text and a reference interpretation */
-enum { L_D, L_M1D, L_P1D, L_DOTP1D, L_S1, L_S2, L_PU, L_0PU, L_I, L_A, L_C, L_M1A, L_DPU, L_SM1D, L_GD, L_GS, L_YPU, L_KD, L_C2, L_I2, L_A2, L_CR, L_ZD, L_P9D, L_P1SBA, L_P1SAB, L_M1SBA, L_M2M1D, L_M2M1S, L_M1DOTD, NLIST };
+enum { L_D, L_M1D, L_P1D, L_DOTP1D, L_S1, L_S2, L_PU, L_0PU, L_I, L_A, L_C, L_M1A, L_DPU, L_SM1D, L_GD, L_GS, L_YPU, L_KD, L_C2, L_I2, L_A2, L_CR, L_ZD, L_P9D, L_P1SBA, L_P1SAB, L_M1SBA, L_M2M1D, L_M2M1S, L_M1DOTD, L_NESTR, NLIST };
 static const char *list_txt[NLIST] = {
 	"d", "-1d", "+1d", ".,+1d", "s/a/b/", "s/a/ab/g", "pu a", "0pu a", "i", "a", "c", "-1a", "d|pu", "s/a/c/|-1d",
 	"g/b/d", "g/a/s/a/b/", "y b|pu b", "ka|'ad", "c", "i", "a", ".,+1c",
@@ -37,10 +37,11 @@ static const char *list_txt[NLIST] = {
 	"-2,-1d",	/* removes two lines above the current one: the lines still to be visited move up past the scan position */
 	"-2,-1s/$/x/",	/* leaves the current line two above where the scan stood */
 	"-1,.d",	/* removes the line above and the current one */
+	".,+1g/./s/$/!/",	/* a nested global over a range that holds lines the outer one has still to visit */
 };
-static const int list_blocks[NLIST] = {0, 0, 0, 0, 0, 0, 0, 0, 1, 1, 1, 1, 0, 0, 0, 0, 0, 0, 1, 1, 1, 1, 0, 0, 0, 0, 0, 0, 0, 0};
+static const int list_blocks[NLIST] = {0, 0, 0, 0, 0, 0, 0, 0, 1, 1, 1, 1, 0, 0, 0, 0, 0, 0, 1, 1, 1, 1, 0, 0, 0, 0, 0, 0, 0, 0, 0};
 /* text blocks: single line "x" (or "a" for -1a); the last four lists use two-line blocks whose lines match the patterns */
-static const char *list_block_text[NLIST] = {0, 0, 0, 0, 0, 0, 0, 0, "x\n", "x\n", "x\n", "a\n", 0, 0, 0, 0, 0, 0, "a\nab\n", "a\nb\n", "ab\n\n", "b\n", 0, 0, 0, 0, 0, 0, 0, 0};
+static const char *list_block_text[NLIST] = {0, 0, 0, 0, 0, 0, 0, 0, "x\n", "x\n", "x\n", "a\n", 0, 0, 0, 0, 0, 0, "a\nab\n", "a\nb\n", "ab\n\n", "b\n", 0, 0, 0, 0, 0, 0, 0, 0, 0};
 
 static void subst(struct xm *m, int idx, const char *from, const char *to, int g)
 {
@@ -111,6 +112,15 @@ static int exec_list(struct xm *m, int l)
 			return 0;
 		subst(m, m->cur - 1, "b", "a", 0);
 		return 0;
+	case L_NESTR: {
+		int i;
+		if (m->cur + 1 >= m->n)
+			return 1;		/* the range reaches past the last line: rejected */
+		for (i = m->cur; i <= m->cur + 1; i++)
+			if (m->ln[i].s[0])
+				strncat(m->ln[i].s, "!", XM_LNSZ - strlen(m->ln[i].s) - 1);
+		return 0;
+	}
 	case L_M1DOTD: {
 		struct xcmd c;
 		if (m->cur < 1)
